@@ -305,6 +305,17 @@ func (f *Frame) callEffects(ci ssa.CallInstruction) effects {
 		if p.fc.ModHeap {
 			eff.comps["*heap"] = true
 		}
+		if p.fc.WritesArgs {
+			wa := cm.Args
+			if cm.IsInvoke() {
+				wa = append([]ssa.Value{cm.Value}, wa...)
+			}
+			for _, a := range wa {
+				for _, k := range f.directComps(a) {
+					eff.comps[k] = true
+				}
+			}
+		}
 		ks, ok := f.modifiesComps(p)
 		if !ok {
 			eff.all = true
@@ -903,6 +914,27 @@ func (f *Frame) applyContract(p callPlan, args []Val, st *State, reach Term, whe
 			default:
 				c.havocComp(st, t.comp)
 			}
+		}
+	}
+	if fc.WritesArgs && ci != nil {
+		cm := ci.Common()
+		argVals := cm.Args
+		if cm.IsInvoke() {
+			argVals = append([]ssa.Value{cm.Value}, argVals...)
+		}
+		for _, a := range argVals {
+			a2, known := unwrapIface(a)
+			if !known {
+				continue
+			}
+			if _, isVal := f.vals[a2]; !isVal {
+				if _, isLoc := f.locs[a2]; !isLoc {
+					if _, isC := a2.(*ssa.Const); isC {
+						continue
+					}
+				}
+			}
+			f.havocDirect(a2, f.val(a2), st)
 		}
 	}
 	// the callee may allocate
